@@ -25,11 +25,13 @@ def F(x):
 
 
 @st.composite
-def raw_grammar(draw, max_nt=4, max_rules=8, max_terms=3, min_terms=1, undef_rate=0.08, boost=None):
+def raw_grammar(draw, max_nt=4, max_rules=8, max_terms=3, min_terms=1, undef_rate=0.08, boost=None, corner_rate=0.2):
     nV = draw(st.integers(min_terms, max_terms))
     V = TERMS[:nV]
     nN = draw(st.integers(1, max_nt))
     N = NTS[:nN]
+    if max_nt >= 3 and draw(st.integers(0, 99)) < corner_rate * 100:
+        return draw(corner_grammar(V, NTS[: max(3, nN)], max_rules))
     nR = draw(st.integers(1, max_rules))
     use_undef = draw(st.integers(0, 99)) < undef_rate * 100
     syms = N + V + ([UNDEF] if use_undef else [])
@@ -52,6 +54,37 @@ def raw_grammar(draw, max_nt=4, max_rules=8, max_terms=3, min_terms=1, undef_rat
         order = draw(st.permutations(range(len(rules))))
         rules = [rules[i] for i in order]
     return {"S": "S", "V": V, "rules": rules, "boost": bool(boost)}
+
+
+@st.composite
+def corner_grammar(draw, V, N, max_rules):
+    """Second grammar family ("shared left corners"): the start symbol's rules begin with a terminal
+    and continue with a nonterminal; the other nonterminals' rules begin with a later nonterminal
+    (so several nonterminals share their left corners and are predicted in the same or in sibling
+    columns) or with a terminal.  Layered, hence a finite language unless a recursive rule is added."""
+    S, rest = N[0], N[1:]
+    rules = []
+    for i, X in enumerate(rest):
+        later = rest[i + 1 :]
+        for _ in range(draw(st.integers(1, 2))):
+            if later and draw(st.integers(0, 9)) < 7:
+                body = [draw(st.sampled_from(later))]
+            else:
+                body = [draw(st.sampled_from(V))]
+            if draw(st.integers(0, 9)) < 6:
+                body.append(draw(st.sampled_from(V)))
+            rules.append([X, body])
+    if not any(h == rest[-1] and all(y in V for y in b) for h, b in rules):
+        rules.append([rest[-1], [draw(st.sampled_from(V))]])
+    nS = draw(st.integers(2, max(2, min(5, max_rules - len(rules)))))
+    for _ in range(nS):
+        body = [draw(st.sampled_from(V))] if draw(st.integers(0, 9)) < 8 else []
+        body.append(draw(st.sampled_from(rest)))
+        if draw(st.integers(0, 9)) < 2:
+            body.append(draw(st.sampled_from(V + [S])))
+        rules.append([S, body])
+    order = draw(st.permutations(range(len(rules))))
+    return {"S": S, "V": V, "rules": [rules[i] for i in order], "boost": True, "family": "corner"}
 
 
 def repair(g, mode):
@@ -202,6 +235,8 @@ def classify(g):
         out.add("useless_symbols")
     if any(len(b) == 0 for _, _, b in rules):
         out.add("nullary_rule")
+    if g.get("family") == "corner":
+        out.add("family:shared_left_corners")
     return out
 
 
